@@ -71,6 +71,10 @@ structure Cfg where
   /-- lists are keyed in `visited` by the pointer of their head node; `false`: by `identity_tuple()` =
       (element storage of the first node, index), which different lists share (K11j). -/
   listVisitedByHead : Bool
+  /-- the loop of the list arm that pairs up the elements rejects the two lists when two elements have
+      different enum discriminants, without queueing them (seeded defect m1): wrong, because `equal?`
+      has cross-kind arms (mutable vs immutable vector). -/
+  listInnerKindReject : Bool
   /-- `0.0` and `-0.0` hash alike (K11c). -/
   hashZeroUnified : Bool
   /-- hash maps / hash sets hash independently of their iteration order (K11d). -/
@@ -83,18 +87,21 @@ structure Cfg where
 def Cfg.fixed : Cfg :=
   { pairKeyed := true, vecRevisitFalse := false, armRational := true, armBigRational := true,
     armComplex := true, armByteVector := true, armBoxedFunction := true,
-    listShortcutChecksNext := true, listVisitedByHead := true,
+    listShortcutChecksNext := true, listVisitedByHead := true, listInnerKindReject := false,
     hashZeroUnified := true, hashUnordered := true, hashVecUnified := true }
 
 /-- The code as it was when this check was written (before the fixes of K11a–K11e). -/
 def Cfg.legacy : Cfg :=
   { pairKeyed := false, vecRevisitFalse := true, armRational := false, armBigRational := false,
     armComplex := false, armByteVector := false, armBoxedFunction := false,
-    listShortcutChecksNext := false, listVisitedByHead := false,
+    listShortcutChecksNext := false, listVisitedByHead := false, listInnerKindReject := false,
     hashZeroUnified := false, hashUnordered := false, hashVecUnified := false }
 
 /-- The code after the fixes of K11a–K11i, before the one of K11j. -/
 def Cfg.k11j : Cfg := { Cfg.fixed with listShortcutChecksNext := false, listVisitedByHead := false }
+
+/-- The fixed code plus an "optimistic" discriminant check on list elements. -/
+def Cfg.kindReject : Cfg := { Cfg.fixed with listInnerKindReject := true }
 
 def Cfg.sound (c : Cfg) : Bool := c == Cfg.fixed
 
@@ -263,6 +270,26 @@ def lkey (c : Cfg) (g : Graph) (i : Nat) : Nat :=
     | .list _ (some s) => g.length + 1 + ((s.store + s.idx) * (s.store + s.idx + 1) / 2 + s.idx)
     | _ => i
 
+/-- `core::mem::discriminant` of the `SteelVal` a node stands for -/
+def disc : Node → Nat
+  | .leaf (.int i) => if i.natAbs < 2 ^ 63 then 0 else 1       -- IntV / BigNum (isize range, up to one value)
+  | .leaf (.flt _) => 2
+  | .leaf (.bool _) => 3
+  | .leaf (.char _) => 4
+  | .leaf (.str _) => 5
+  | .leaf (.sym _) => 6
+  | .leaf .void => 7
+  | .leaf (.rat n d) => if ratIsBig n d then 9 else 8
+  | .leaf (.bytes _) => 10
+  | .list _ _ => 11
+  | .pair _ _ => 12
+  | .vec _ => 13
+  | .mvec _ => 14
+  | .struct _ _ => 15
+  | .box _ => 16
+  | .map _ => 17
+  | .set _ => 18
+
 inductive Out
   | ret (b : Bool)                               -- `return b`
   | cont (pl pr : List Nat) (vis : List Key)      -- push `pl` left, `pr` right (in this order); `continue`
@@ -288,7 +315,14 @@ def arm (c : Cfg) (g : Graph) (keyEq : Nat → Nat → Bool) (l r : Nat) (vis : 
       if l == r || sigSame c s t || (xs.isEmpty && ys.isEmpty) then .cont [] [] vis
       else
         match visit c vis (lkey c g l) (lkey c g r) with
-        | (true, vis') => if xs.length != ys.length then .ret false else .cont xs ys vis'
+        | (true, vis') =>
+            if xs.length != ys.length then .ret false
+            -- `for (lvalue, rvalue) in l.iter().zip(r.iter())`: every pair is queued (an element pair that the
+            -- list short cut would skip is skipped here already: same outcome); a configuration that
+            -- rejects on different discriminants returns here
+            else if c.listInnerKindReject && (xs.zip ys).any (fun p => disc (g.node p.1) != disc (g.node p.2)) then
+              .ret false
+            else .cont xs ys vis'
         | (false, vis') => .cont [] [] vis'
   | .pair a b, .pair a' b' =>
       if l == r then .cont [] [] vis
@@ -437,6 +471,8 @@ def mContains (m : M κ ν) (k : κ) : Bool := m.any fun e => e.1 == k
 def mLength (m : M κ ν) : Nat := m.length
 def mKeys (m : M κ ν) : List κ := m.map Prod.fst
 def mValues (m : M κ ν) : List ν := m.map Prod.snd
+/-- `(hash-union l r)`: for a key present in both the value of the LEFT map -/
+def mUnion (l r : M κ ν) : M κ ν := l ++ r.filter fun e => !(mContains l e.1)
 /-- `(hash k1 v1 k2 v2 …)`: later bindings win -/
 def mOfList (kvs : List (κ × ν)) : M κ ν := kvs.foldl (fun m e => mInsert m e.1 e.2) []
 /-- every key at most once (invariant of the representation) -/
@@ -453,6 +489,10 @@ def sLength (s : S κ) : Nat := s.length
 def sOfList (ks : List κ) : S κ := ks.foldl sInsert []
 def sSubset (s t : S κ) : Bool := s.all t.contains
 def sRemove (s : S κ) (k : κ) : S κ := s.filter fun x => !(x == k)
+def sUnion (s t : S κ) : S κ := s ++ t.filter fun x => !(s.contains x)
+def sInter (s t : S κ) : S κ := s.filter t.contains
+/-- `hashset-difference` is documented (and implemented) as the symmetric difference -/
+def sSymDiff (s t : S κ) : S κ := (s.filter fun x => !(t.contains x)) ++ t.filter fun x => !(s.contains x)
 
 /-! ### lists: `length`, `list-ref`, `first`/`car`, `rest`/`cdr`, `cons`, `append`, `reverse`,
 `take`, `list-tail`/`drop`, `last`, `range` -/
